@@ -26,6 +26,10 @@
     - the entries handed to find_offsets form a [connected] overlap graph, so the
       hypothesis of C05_unique_up_to_shift / C08_master_curve_choice_free is
       discharged for the model of the code (C08_main_body_offsets_unique).
+    Last section: the view rising_curve_line_segment (what `plot rise` draws)
+    has rows only for rises with an offsets row - left-out rises are not placed
+    by the view either - with their own offset, at most one per rise under the
+    PRIMARY KEYs (C08_line_segments_only_main_body, Model/Views.v).
     Still by correspondence only: that Model/Components.v computes what the
     Python computes (sampled, every run); ties between equally large components
     are resolved by dict insertion order, which the model reproduces and the
@@ -162,4 +166,58 @@ Proof. split; vm_compute; reflexivity. Qed.
 Example C08_example_main_body :
   offsets_from_mapping C08_example_hm
   = Ok ([0%nat; 1%nat; 2%nat], [20 # 3; 53 # 15; 0], [5%Z; 6%Z; 7%Z]).
+Proof. vm_compute. reflexivity. Qed.
+
+(** ** Left-out rises in the view rising_curve_line_segment (Model/Views.v)
+
+    `spowtd plot rise` draws one line segment per row of this view.  The view
+    INNER JOINs storm_total_rise (pairing, interval, the two water levels) with
+    storm_total_rain_depth and with rising_interval (the offsets).  Hence, for
+    all table contents: every row belongs to a rise that HAS an offsets row - a
+    rise left out of the main body is not drawn, at offset 0 or anywhere - and
+    carries that rise's own offset; under the PRIMARY KEYs of the five tables a
+    rise has at most one row; and every aligned rise whose pairing, interval,
+    end levels, storm and rainfall rows exist has its row (exactly one per
+    aligned rise when they all do: C08_line_segments_one_per_aligned_rise). *)
+From Spowtd Require Import Model.Views Proofs.ViewsSpec.
+Import DepthView.
+
+Theorem C08_line_segments_only_main_body : forall pairing zint wl storms rain offsets,
+  let V := view_line_segments pairing zint wl storms rain offsets in
+  (forall r, In r V -> In (seg_epoch r, seg_offset r) offsets /\ exists s, In (seg_epoch r, s) pairing) /\
+  (NoDup (map fst pairing) -> NoDup (map fst zint) -> NoDup (map fst wl) ->
+   NoDup (map fst storms) -> NoDup (map fst offsets) -> NoDup (map seg_epoch V)) /\
+  (forall e o s thru sthru zi zf,
+     In (e, o) offsets -> In (e, s) pairing -> In (e, thru) zint -> In (e, zi) wl -> In (thru, zf) wl ->
+     In (s, sthru) storms -> filter (in_storm s sthru) rain <> [] ->
+     In (e, o, view_depth s sthru rain, zi, zf) V).
+Proof. exact line_segments_only_main_body. Qed.
+Print Assumptions C08_line_segments_only_main_body.
+
+Theorem C08_line_segments_one_per_aligned_rise : forall pairing zint wl storms rain offsets,
+  NoDup (map fst pairing) -> NoDup (map fst zint) -> NoDup (map fst wl) ->
+  NoDup (map fst storms) -> NoDup (map fst offsets) ->
+  (forall e o, In (e, o) offsets -> exists s thru sthru zi zf,
+     In (e, s) pairing /\ In (e, thru) zint /\ In (e, zi) wl /\ In (thru, zf) wl /\
+     In (s, sthru) storms /\ filter (in_storm s sthru) rain <> []) ->
+  Permutation (map (fun r => (seg_epoch r, seg_offset r))
+                   (view_line_segments pairing zint wl storms rain offsets)) offsets.
+Proof. exact line_segments_one_per_aligned_rise. Qed.
+Print Assumptions C08_line_segments_one_per_aligned_rise.
+
+(** Non-vacuity: three matched rises (intervals starting 10, 50, 90; storms
+    starting 0, 40, 80); the alignment kept the first two (offsets 7/2 and -1)
+    and left the third out: two rows, none for the rise starting at 90. *)
+Example C08_example_line_segments :
+  let pairing := [(10, 0); (50, 40); (90, 80)]%Z in
+  let zint := [(10, 20); (20, 50); (50, 60); (60, 90); (90, 100)]%Z in
+  let wl := [(10%Z, -30 # 1); (20%Z, -10 # 1); (50%Z, -25 # 1); (60%Z, -5 # 1); (90%Z, 40 # 1); (100%Z, 55 # 1)] in
+  let storms := [(0, 20); (40, 60); (80, 100)]%Z in
+  let rain := [{| r_from := 0; r_thru := 10; r_mm_h := 36 |}; {| r_from := 10; r_thru := 20; r_mm_h := 72 |};
+               {| r_from := 40; r_thru := 50; r_mm_h := 18 |}; {| r_from := 50; r_thru := 60; r_mm_h := 18 |};
+               {| r_from := 80; r_thru := 90; r_mm_h := 360 |}; {| r_from := 90; r_thru := 100; r_mm_h := 0 |}] in
+  let offsets := [(10%Z, 7 # 2); (50%Z, -1 # 1)] in
+  map (fun r => match r with (e, o, d, zi, zf) => (e, Qred o, Qred d, Qred zi, Qred zf) end)
+      (view_line_segments pairing zint wl storms rain offsets)
+  = [(10%Z, 7 # 2, 3 # 10, -30 # 1, -10 # 1); (50%Z, -1 # 1, 1 # 10, -25 # 1, -5 # 1)].
 Proof. vm_compute. reflexivity. Qed.
